@@ -305,3 +305,66 @@ def extra_guards(prog, b, bb, recognised, assume=()):
             continue
         out.append(a)
     return out
+
+
+# ------------------------------------------------------------------------------------ state mutation map
+def field_mutations(prog, owner):
+    """{field: {op: [(fn, span)]}} for every way a field of ADT `owner` is mutated anywhere in the analysed crates:
+    'assign' (direct write), a method name (callee receiving `&mut owner.field` as receiver), '<callee>#argN' (passed as
+    another argument), 'borrow' (a &mut borrow not consumed by a call in the same body)"""
+    out = {}
+    for d, b in prog.bodies.items():
+        if b.generated:
+            continue
+        fn = K.fshort(d)
+        for (bb, ow, name, rv, sp, dst) in b.field_writes():
+            if ow == owner:
+                out.setdefault(name, {}).setdefault("assign", []).append((fn, sp))
+        mb = {}
+        for (bb, ow, name, sp, l, pl) in b.mut_borrows_of_fields():
+            if ow == owner:
+                mb[l] = [name, sp, False]
+        for c in b.calls():
+            for i, a in enumerate(c.args):
+                plx = a.get("m") or a.get("c")
+                if plx and not plx["p"] and plx["l"] in mb:
+                    ent = mb[plx["l"]]
+                    op = c.name.rsplit("::", 1)[-1] + ("" if i == 0 else "#arg%d" % i)
+                    out.setdefault(ent[0], {}).setdefault(op, []).append((fn, c.span))
+                    ent[2] = True
+        for l, (name, sp, used) in mb.items():
+            if not used:
+                out.setdefault(name, {}).setdefault("borrow", []).append((fn, sp))
+    return out
+
+
+def ob_state_mutations(run, oid, owners, why):
+    """the reviewed mutation map (rules/state_mutations.json): which operations mutate each field of the protocol state
+    ADTs, and at how many sites. A new kind of mutation (remove/clear/retain/assign ...) or an additional site is a
+    violation; moving a site between functions is not."""
+    import json
+    import os
+    prog = run.program("lib")
+    tab = json.load(open(os.path.join(os.path.dirname(os.path.abspath(__file__)), "state_mutations.json")))["mutations"]
+    o = run.ob(oid, "protocol state is mutated only by the reviewed operations (kind of operation and number of sites per field)", why, floor=len(owners))
+    for ow in owners:
+        full = "alpenglow::" + ow
+        if full not in prog.adts:
+            o.missing("struct " + ow)
+            continue
+        got = field_mutations(prog, full)
+        want = tab.get(ow, {})
+        fields = [f["name"] for f in prog.adts[full]["variants"][0]["fields"]]
+        for f in fields:
+            g = got.get(f, {})
+            w = want.get(f, {})
+            bad = []
+            for op, sites in sorted(g.items()):
+                if len(sites) > w.get(op, 0):
+                    for (fn, sp) in sites[w.get(op, 0):] if op in w else sites:
+                        bad.append((op, fn, sp))
+            if bad:
+                for (op, fn, sp) in bad:
+                    o.fail("%s.%s|%s|%s" % (K.fshort(full), f, op, fn), "unreviewed mutation of %s.%s: `%s` in %s (reviewed: %s)" % (ow.rsplit("::", 1)[-1], f, op, fn, w or "never mutated after construction"), sp)
+            else:
+                o.ok("%s.%s" % (K.fshort(full), f), "%s.%s mutated only by %s" % (ow.rsplit("::", 1)[-1], f, ", ".join("%s x%d" % (k, len(v)) for k, v in sorted(g.items())) or "(nothing)"), prog.adts[full]["span"], nontrivial=bool(g))
